@@ -237,7 +237,7 @@ pub fn run(args: &Args, rep: &mut Report) {
             let t = gen_instant(&mut r, &case.ast);
             rep.evaluations += 1;
             rep.begin(&format!("{} | {} | {t}", case.text, case.hol.to_string()));
-            let steps = if full_walks > 0 { 4_000_000 } else { 40_000 };
+            let steps = if full_walks > 0 { 4_000_000 } else { 9_000 };
             match check_instant_budget(&oh, Some(&case.ast), t, horizon, steps, &mut r, &mut st) {
                 Ok(o) => {
                     rep.count("instants_checked");
